@@ -24,7 +24,8 @@ GEN_TARGETS = ('Effects',)
 DRIVER_MAIN = 'Main/Effects.lean'
 DRIVER_TARGETS = ['CopVerif.Driver.Effects']
 ALWAYS_SEARCH = True
-RULE = ('(a) one static query per public entry point (78 functions after de-duplication of inherited methods) on the '
+RULE = ('(a) one static query per public entry point (91 functions after de-duplication of inherited methods; '
+        'constructors judged together with all entry points of their classes) on the '
         'IR regenerated from the working tree; (b) dynamic cases: entry point x concrete class x container kind of '
         'every argument (ndarray C/F/strided/read-only, DataFrame, Series, dict, list, logging dict/list) x random '
         'data from ctx.nprng; a case is distinct by (entry, class, kinds, data seed) and non-trivial when the call '
@@ -248,6 +249,14 @@ class Gen:
         u[:, 1] = np.clip(0.6 * u[:, 0] + 0.4 * u[:, 1], 0.02, 0.98)
         return u
 
+    def closed_uniforms(self):
+        """points of the CLOSED unit square: some (not a whole column of) exact 0.0 / 1.0 coordinates"""
+        u = self.uniforms(14)
+        border = [(0.0, 0.3), (0.4, 0.0), (1.0, 0.5), (0.6, 1.0), (0.0, 0.0), (1.0, 1.0), (0.0, 1.0), (1.0, 0.0)]
+        for k, (a, b) in enumerate(border):
+            u[1 + k] = (a, b)
+        return u
+
     def sample1d(self, n=60):
         return self.rs.gamma(2.0, size=n) + 1.0
 
@@ -395,23 +404,115 @@ class Gen:
                     m.fit(X)
                     return fitted_then_used(m, X)
                 return run
-            for kind, a in self.array_kinds(U):
+            for kind, a in self.array_kinds(U) + [('closed/ndarray', self.closed_uniforms())]:
                 yield self.mk(entry, tag, kind, make_fn, lambda a=a: {'X': a}, ['X'])
         elif meth in ('probability_density', 'pdf', 'log_probability_density', 'cumulative_distribution', 'cdf',
                       'partial_derivative'):
-            for kind, a in self.array_kinds(U):
-                yield self.mk(entry, tag, kind, lambda: self.bound(cname, meth),
-                              lambda a=a: {'X': a}, ['X'])
+            for where, pts in (('open', U), ('closed', self.closed_uniforms())):
+                for kind, a in self.array_kinds(pts):
+                    yield self.mk(entry, tag, f'{where}/{kind}', lambda: self.bound(cname, meth),
+                                  lambda a=a: {'X': a}, ['X'])
         elif meth in ('percent_point', 'ppf'):
-            y, v = U[:8, 0], U[:8, 1]
-            for (k1, a), (k2, b) in zip(self.vec_kinds(y), self.vec_kinds(v)):
-                yield self.mk(entry, tag, f'{k1}', lambda: self.bound(cname, meth),
-                              lambda a=a, b=b: {'y': a, 'V': b}, ['y', 'V'])
+            C = self.closed_uniforms()
+            for where, (y, v) in (('open', (U[:8, 0], U[:8, 1])), ('closed', (C[:10, 0], C[:10, 1]))):
+                for (k1, a), (k2, b) in zip(self.vec_kinds(y), self.vec_kinds(v)):
+                    yield self.mk(entry, tag, f'{where}/{k1}', lambda: self.bound(cname, meth),
+                                  lambda a=a, b=b: {'y': a, 'V': b}, ['y', 'V'])
+        elif meth == 'generator':
+            t = np.concatenate([self.rs.uniform(0.02, 0.98, size=6), [0.0, 1.0, 1.0, 0.0]])
+            for kind, a in self.vec_kinds(t, lists=False):
+                yield self.mk(entry, tag, kind, lambda: self.bound(cname, meth), lambda a=a: {'t': a}, ['t'])
+        elif meth == '__init__':
+            yield from self.ctor_cases(entry, 'copulas.bivariate.independence' if cname == 'Independence'
+                                       else 'copulas.bivariate', cname)
         elif meth == 'sample':
             yield self.mk(entry, tag, 'n', lambda: self.bound(cname, meth), lambda: {'n_samples': 5}, [])
 
+    def ctor_cases(self, entry, modname, cname):
+        """constructor arguments are caller-owned for the whole life of the model: build the model from them,
+        fit it (also on data for which a configured marginal raises, so that fall-back paths run), keep using
+        it, then look at the constructor arguments again.  The result is the configuration of the model: a
+        second model built from the SAME argument objects must be configured like the first."""
+        tag = f'{cname}.__init__'
+        rs = self.rs
+
+        def lifetime(build, data, config):
+            def make_fn():
+                def run(**kw):
+                    m = build(**kw)
+                    try:
+                        with np.errstate(all='ignore'):
+                            m.fit(data)
+                    except Exception as e:     # noqa
+                        return ('fit-raised', vc.exc_kind(e))
+                    fitted_then_used(m, data)
+                    return config(m)
+                return run
+            return make_fn
+
+        if cname == 'GaussianMultivariate':
+            from copulas.multivariate import GaussianMultivariate
+            from copulas.univariate import GammaUnivariate, GaussianUnivariate
+            df = self.table(40)
+            df['b'] = np.abs(df['b']) + 0.1
+            wide = df.copy()
+            wide['b'] = wide['b'] * 1e120           # scipy's gamma.fit raises on this column -> Gaussian fall-back
+
+            def config(m):
+                return [(c, type(u).__name__, getattr(getattr(u, '_instance', None), '__class__', type(None)).__name__)
+                        for c, u in zip(m.columns, m.univariates)]
+            specs = [('dict-classes', {'a': GaussianUnivariate, 'b': GammaUnivariate}),
+                     ('dict-names', {'b': 'copulas.univariate.gamma.GammaUnivariate',
+                                     'c': 'copulas.univariate.gaussian.GaussianUnivariate'}),
+                     ('TDict-stub', TDict({'a': RaisingUnivariate, 'c': GaussianUnivariate})),
+                     ('class', GaussianUnivariate),
+                     ('name', 'copulas.univariate.gaussian.GaussianUnivariate')]
+            for sname, spec in specs:
+                for dname, data in (('ordinary', df), ('wide-scale', wide)):
+                    yield self.mk(entry, tag, f'{sname}/{dname}',
+                                  lifetime(lambda **kw: GaussianMultivariate(**kw), data, config),
+                                  lambda spec=spec: {'distribution': spec, 'random_state': np.random.RandomState(3)},
+                                  ['distribution', 'random_state'])
+        elif cname == 'Univariate':
+            from copulas.univariate import GammaUnivariate, GaussianUnivariate, Univariate, UniformUnivariate
+            x = self.sample1d(50)
+            cands = [('list', [GaussianUnivariate, GammaUnivariate, UniformUnivariate]),
+                     ('TList-stub', TList([RaisingUnivariate, GaussianUnivariate])),
+                     ('list-instances', [GaussianUnivariate(), UniformUnivariate()])]
+            for kind, c in cands:
+                for dname, data in (('ordinary', x), ('huge', x * 1e120)):
+                    yield self.mk(entry, tag, f'{kind}/{dname}',
+                                  lifetime(lambda **kw: Univariate(**kw), data,
+                                           lambda m: type(m._instance).__name__),
+                                  lambda c=c: {'candidates': c, 'random_state': np.random.RandomState(4)},
+                                  ['candidates', 'random_state'])
+        elif cname == 'GaussianKDE':
+            from copulas.univariate import GaussianKDE
+            x = self.sample1d(30)
+            w = rs.uniform(0.5, 1.5, size=30)
+            for kind, a in self.vec_kinds(w, lists=False):
+                yield self.mk(entry, tag, kind, lifetime(lambda **kw: GaussianKDE(**kw), x,
+                                                         lambda m: sorted(m._params)),
+                              lambda a=a: {'weights': a, 'bw_method': 0.5, 'random_state': np.random.RandomState(5)},
+                              ['weights', 'random_state'])
+        else:
+            import importlib
+            cls = getattr(importlib.import_module(modname), cname)
+            kw = {'vine_type': 'regular'} if cname == 'VineCopula' else {}
+            if cname in ('Bivariate',):
+                kw = {'copula_type': 'frank'}
+            data = self.table(40) if cname == 'VineCopula' else (
+                self.uniforms() if modname.startswith('copulas.bivariate') else self.sample1d(40))
+            yield self.mk(entry, tag, 'random_state',
+                          lifetime(lambda **k2: cls(**k2), data, lambda m: type(m).__name__),
+                          lambda: dict(kw, random_state=np.random.RandomState(6)), ['random_state'])
+
     def univariate_cases(self, entry, cname, meth):
         tag = f'{cname}.{meth}'
+        if meth == '__init__':
+            import copulas.univariate as UU
+            yield from self.ctor_cases(entry, UU.__name__ if hasattr(UU, cname) else 'copulas.univariate', cname)
+            return
         x = self.sample1d()
         if meth == 'fit':
             def make_fn():
@@ -443,6 +544,9 @@ class Gen:
     def gaussian_cases(self, entry, meth):
         from copulas.multivariate import GaussianMultivariate
         from copulas.univariate import GaussianUnivariate, Univariate
+        if meth == '__init__':
+            yield from self.ctor_cases(entry, 'copulas.multivariate', 'GaussianMultivariate')
+            return
         tag = f'GaussianMultivariate.{meth}'
         df = self.table(40)
         if meth == 'fit':
@@ -475,6 +579,9 @@ class Gen:
 
     def vine_cases(self, entry, meth):
         from copulas.multivariate import VineCopula
+        if meth == '__init__':
+            yield from self.ctor_cases(entry, 'copulas.multivariate', 'VineCopula')
+            return
         for vt in ('center', 'direct', 'regular'):
             tag = f'VineCopula[{vt}].{meth}'
             if meth == 'fit':
@@ -546,7 +653,7 @@ class Gen:
                               lambda a=a, b=b: {'f': (lambda x: x ** 3 - c), 'xmin': a, 'xmax': b}, ['xmin', 'xmax'])
         elif modname == 'copulas.bivariate':
             from copulas.bivariate import select_copula
-            for kind, a in self.array_kinds(self.uniforms()):
+            for kind, a in self.array_kinds(self.uniforms()) + [('closed/ndarray', self.closed_uniforms())]:
                 yield self.mk(entry, tag, kind, lambda: (lambda X: state(select_copula(X))),
                               lambda a=a: {'X': a}, ['X'])
         elif modname == 'copulas.datasets':
@@ -586,6 +693,20 @@ class Gen:
                                           lambda real=real, synth=synth, cols=cols: {
                                               'real': real, 'synth': synth, 'columns': copy.copy(cols), 'title': None},
                                           ['real', 'synth', 'columns', 'title'])
+
+
+def _stub():
+    from copulas.univariate import GaussianUnivariate
+
+    class RaisingUnivariate(GaussianUnivariate):
+        """a configured marginal whose fit always fails (forces the fall-back paths)"""
+
+        def fit(self, X):
+            raise ValueError('stub family: cannot be fitted')
+    return RaisingUnivariate
+
+
+RaisingUnivariate = _stub()
 
 
 def state(obj):
@@ -684,6 +805,26 @@ def static_verdicts(ctx, lean):
         for j in range(k):
             params[ws[6 + 3 * j]] = ws[8 + 3 * j] == '1'
         out[name] = {'idx': i, 'verdict': verdict, 'size': size, 'params': params}
+    # constructors: their arguments are caller-owned for the whole life of the object, so `__init__` is judged
+    # together with every other entry point of the classes that use it (one statement set, any call order)
+    an = analysis()
+    by_name = {e['name']: e for e in an.entries}
+    for name, s in out.items():
+        if not name.endswith('.__init__'):
+            continue
+        classes = {(t[0], t[1]) for t in by_name[name]['tags']}
+        group = [out[e['name']]['idx'] for e in an.entries
+                 if e['name'] != name and any((t[0], t[1]) in classes for t in e['tags'])]
+        ws = lean.ask('effects session ' + ' '.join(str(i) for i in [s['idx']] + group)).split()
+        if ws[0] != 'ok':
+            raise RuntimeError(f'effects session for {name}: {" ".join(ws)[:200]}')
+        written = {int(w) for w in ws[2:]}
+        for pname, v, c in by_name[name]['params']:
+            if v in written or c in written:
+                s['params'][pname] = True
+        if any(s['params'].values()):
+            s['verdict'] = 'reject'
+        s['lifetime'] = len(group)
     return out
 
 
@@ -817,7 +958,37 @@ def fig_traces(fig, dim):
     return out
 
 
-def plot_case(lean, fname, cols, real, synth, req, titled=False):
+INDEX_SCHEMES = ('default', 'strided', 'tail', 'offset', 'shuffled', 'duplicated', 'filtered', 'strings')
+
+
+def with_index(rows, cols, scheme, rng):
+    """a frame holding exactly `rows`, whose index is what a caller gets from slicing / filtering / re-labelling"""
+    n = len(rows)
+    df = pd.DataFrame(rows, columns=cols)
+    if scheme == 'strided':          # df.iloc[::2]
+        df.index = pd.RangeIndex(0, 2 * n, 2)
+    elif scheme == 'tail':           # df.iloc[n:]
+        df.index = pd.RangeIndex(n, 2 * n)
+    elif scheme == 'offset':
+        df.index = pd.RangeIndex(1000, 1000 + n)
+    elif scheme == 'shuffled':
+        perm = list(range(n))
+        rng.shuffle(perm)
+        df.index = pd.Index(perm)
+    elif scheme == 'duplicated':     # pd.concat([df.iloc[:k]] * m)
+        df.index = pd.Index([i % max(1, (n + 1) // 2) for i in range(n)])
+    elif scheme == 'filtered':       # df[mask]: an increasing subset of a longer range
+        labels, cur = [], 0
+        for _ in range(n):
+            cur += rng.randint(1, 3)
+            labels.append(cur)
+        df.index = pd.Index(labels)
+    elif scheme == 'strings':
+        df.index = pd.Index([f'r{i}' for i in range(n)])
+    return df
+
+
+def plot_case(lean, fname, cols, real, synth, req, titled=False, schemes=('default', 'default'), rng=None):
     import copulas.visualization as V
     dim = 2 if '2d' in fname else 3
     kind = 'scatter' if fname.startswith('scatter') else 'compare'
@@ -826,11 +997,12 @@ def plot_case(lean, fname, cols, real, synth, req, titled=False):
         try:
             r_req = None if req is None else list(req)
             title = 'T' if titled else None
+            fr = with_index(real, cols, schemes[0], rng)
+            fs = with_index(synth, cols, schemes[1], rng)
             if kind == 'scatter':
-                fig = getattr(V, fname)(pd.DataFrame(real, columns=cols), r_req, title)
+                fig = getattr(V, fname)(fr, r_req, title)
             else:
-                fig = getattr(V, fname)(pd.DataFrame(real, columns=cols), pd.DataFrame(synth, columns=cols), r_req,
-                                        title)
+                fig = getattr(V, fname)(fr, fs, r_req, title)
             got = ('ok', fig_traces(fig, dim))
         except Exception as e:   # noqa
             got = ('err', vc.exc_kind(e))
@@ -862,8 +1034,28 @@ def plots(ctx, lean):
     bad = None
     names = ['a', 'b', 'c', 'd', 'e']
     n = 10 * ctx.scale
+    def cell():
+        return rng.choice([0.0, 1.0, -1.0, 0.5]) if rng.random() < 0.3 else round(rng.uniform(-5, 5), 3)
     for fname in ('scatter_2d', 'compare_2d', 'scatter_3d', 'compare_3d'):
         dim = 2 if '2d' in fname else 3
+        # every index scheme at least once on each side, with a valid request (the frames a caller has after
+        # slicing, filtering, re-labelling or concatenating: the figure must not depend on the index)
+        pairs = [(sc, 'default') for sc in INDEX_SCHEMES] + [('default', sc) for sc in INDEX_SCHEMES[1:]]
+        pairs += [(rng.choice(INDEX_SCHEMES), rng.choice(INDEX_SCHEMES)) for _ in range(2 * ctx.scale)]
+        for k, schemes in enumerate(pairs):
+            width = rng.choice([dim, dim + 1])
+            cols = names[:width]
+            nr, ns = rng.randint(3, 9), rng.randint(2, 7)
+            real = [[cell() for _ in cols] for _ in range(nr)]
+            synth = [[cell() for _ in cols] for _ in range(ns)]
+            req = rng.sample(cols, dim) if (width > dim or rng.random() < 0.5) else None
+            ok, got, want = plot_case(lean, fname, cols, real, synth, req, False, schemes, rng)
+            ctx.case((fname, 'index', schemes, width, nr, ns, k), nontrivial=True)
+            ctx.count(f'plot-index:{schemes[0]}/{schemes[1]}')
+            ctx.count(f'plot:{fname}:{got[0] if got[0] == "ok" else got[1]}')
+            if not ok and bad is None:
+                bad = {'builder': fname, 'columns': cols, 'request': req, 'index_schemes': schemes, 'real': real,
+                       'synth': synth, 'figure': got, 'model': want}
         for k in range(n):
             width = rng.choice([dim, dim, dim + 1, 4, 2])
             cols = names[:width]
@@ -873,9 +1065,6 @@ def plots(ctx, lean):
                 nr = 1
             if nr + ns == 0:
                 ns = 2
-
-            def cell():
-                return rng.choice([0.0, 1.0, -1.0, 0.5]) if rng.random() < 0.3 else round(rng.uniform(-5, 5), 3)
             real = [[cell() for _ in cols] for _ in range(nr)]
             synth = [[cell() for _ in cols] for _ in range(ns)]
             mode = rng.choice(['none', 'empty', 'valid', 'valid', 'valid', 'arity-', 'arity+', 'unknown'])
@@ -895,12 +1084,14 @@ def plots(ctx, lean):
             else:
                 req = None
             titled = rng.random() < 0.4
-            ok, got, want = plot_case(lean, fname, cols, real, synth, req, titled)
+            schemes = (rng.choice(INDEX_SCHEMES), rng.choice(INDEX_SCHEMES))
+            ok, got, want = plot_case(lean, fname, cols, real, synth, req, titled, schemes, rng)
             ctx.case((fname, width, nr, ns, tuple(req) if req is not None else None, titled, k),
                      nontrivial=nr + ns > 0)
             ctx.count(f'plot:{fname}:{got[0] if got[0] == "ok" else got[1]}')
             if not ok and bad is None:
-                bad = {'builder': fname, 'columns': cols, 'request': req, 'titled': titled, 'real': real, 'synth': synth,
+                bad = {'builder': fname, 'columns': cols, 'request': req, 'titled': titled, 'index_schemes': schemes,
+                       'real': real, 'synth': synth,
                        'figure': got, 'model': want}
     ctx.ob('corr:plots-figure-data-vs-model', bad is None, 'tie', bad or 'Figure.data = traces predicted by the model')
 
@@ -932,7 +1123,7 @@ def search(ctx, deep):
             ctx.fail_input(short(name), case, text, 'a second identical call re-using the same argument objects '
                            'gives the same result', f'{short(name)}:reuse-differs')
     # plots on the real code: every row once under the right label (independent of the Lean model)
-    pf = plot_oracle(ctx, 6 * (ctx.scale if deep else 1))
+    pf = plot_oracle(ctx, 2 * len(INDEX_SCHEMES) * (3 if deep else 1))
     found += pf
     for c in sorted(known - hit):
         ctx.known_absent.append(c)
@@ -948,10 +1139,13 @@ def plot_oracle(ctx, n):
         for k in range(n):
             width = rng.choice([dim, dim + 1])
             cols = ['a', 'b', 'c', 'd'][:width]
-            real = pd.DataFrame([[round(rng.uniform(-3, 3), 2) for _ in cols] for _ in range(rng.randint(1, 9))],
-                                columns=cols)
-            synth = pd.DataFrame([[round(rng.uniform(-3, 3), 2) for _ in cols] for _ in range(rng.randint(1, 7))],
-                                 columns=cols)
+            schemes = (INDEX_SCHEMES[k % len(INDEX_SCHEMES)], rng.choice(INDEX_SCHEMES))
+            if k >= len(INDEX_SCHEMES):
+                schemes = (rng.choice(INDEX_SCHEMES), INDEX_SCHEMES[k % len(INDEX_SCHEMES)])
+            real = with_index([[round(rng.uniform(-3, 3), 2) for _ in cols] for _ in range(rng.randint(2, 9))],
+                              cols, schemes[0], rng)
+            synth = with_index([[round(rng.uniform(-3, 3), 2) for _ in cols] for _ in range(rng.randint(2, 7))],
+                               cols, schemes[1], rng)
             req = rng.sample(cols, dim) if (width > dim or rng.random() < 0.5) else None
             used = req or cols
             with warnings.catch_warnings():
@@ -963,7 +1157,10 @@ def plot_oracle(ctx, n):
                         fig = getattr(V, fname)(real, synth, None if req is None else list(req))
                 except Exception as e:   # noqa
                     found += 1
-                    ctx.fail_input(f'visualization.{fname}', {'columns': cols, 'request': req},
+                    ctx.fail_input(f'visualization.{fname}',
+                                   {'columns': cols, 'request': req, 'real_index': real.index.tolist(),
+                                    'synth_index': synth.index.tolist(), 'real': real.to_numpy().tolist(),
+                                    'synth': synth.to_numpy().tolist()},
                                    f'{type(e).__name__}: {e}'[:200], 'a figure is produced for a valid request',
                                    f'visualization.{fname}:raises')
                     continue
@@ -974,6 +1171,8 @@ def plot_oracle(ctx, n):
             if tr != want or len(fig.data) != len(want):
                 found += 1
                 ctx.fail_input(f'visualization.{fname}', {'columns': cols, 'request': req,
+                                                          'real_index': real.index.tolist(),
+                                                          'synth_index': synth.index.tolist(),
                                                           'real': real.to_numpy().tolist(),
                                                           'synth': synth.to_numpy().tolist()},
                                {k: v[:4] for k, v in tr.items()},
